@@ -98,8 +98,43 @@ def run(c, replay):
                     viol("counters-differ", thread=t, record=i, file=got, traced=exp,
                          order="processed, rollbacks, undone, checkpoints, silent, anti")
                     break
+    # ---- shutdown while everything pending sits at virtual time 0: a round that completes in the shutdown code computes 0.0, which the
+    # main loop cannot tell from "no GVT yet": the per-thread and node record counts must still agree
+    from concurrent.futures import ThreadPoolExecutor
+    import progen
+    t0jobs = []
+    for k in range(int(os.environ.get("T0RUNS", "40")) if c.tier == "quick" else 400):
+        p = progen.gen_time0_program(r)
+        text = progen.render(p)
+        pf = os.path.join(ctx["sd"], "t0_%d.txt" % k)
+        open(pf, "w").write(text)
+        t0jobs.append((k, text, pf, r.choice([3, 4, 4, 6]), r.choice([0, 0, 20, 100]), r.choice([None, None, "10,1,300,3", "11,-1,200,2", "10,0,500,4"])))
+
+    def t0_one(job):
+        k, text, pf, th, gp, delay = job
+        sf = os.path.join(ctx["sd"], "t0stats_%d" % k)
+        res = S.run_sim(ctx["exe"], pf, threads=th, ckpt=r.choice([0, 1, 3]) if False else 2, gvt=gp, stats=sf, watchdog=15, timeout=40, delay=delay)
+        return job, res, sf + ".bin"
+    with ThreadPoolExecutor(6) as ex:
+        t0res = list(ex.map(t0_one, t0jobs))
+    t0_ok = 0
+    for (k, text, pf, th, gp, delay), res, sf in t0res:
+        desc = dict(threads=th, checkpoint_interval=2, gvt_period_us=gp, ranks=1, variant="stop", injected_delay=delay, cmd=res.cmd)
+        if res.sanitizer:
+            C.sanitizer_violation(c, res, text, desc)
+            continue
+        if not res.returned or not os.path.exists(sf):
+            continue       # hangs of this shutdown pattern are C08's (known finding F12)
+        t0_ok += 1
+        rc, so, se = V.run([ctx["mexe"], "stats", sf], timeout=120)
+        L = so.split("\n")
+        if "DECODE ok" not in L:
+            c.violation("stats-not-parsable", dict(kind="property", program=text, config=desc, decoder=so[:200]), True)
+        elif "COUNTS_EQUAL 1" not in L:
+            c.violation("record-counts-differ", dict(kind="property", program=text, config=desc, counts=[l for l in L if l.startswith(("NODE", "T "))]), True)
+    c.cov["time0_shutdown_runs_checked"] = t0_ok
     C.finish(c, ctx)
-    c.cov.update(evaluations=len(runs), distinct_nontrivial=many_rounds, runs_returned=ok, thread_records_compared_with_trace=recs_checked,
+    c.cov.update(evaluations=len(runs) + len(t0jobs), distinct_nontrivial=many_rounds, runs_returned=ok, thread_records_compared_with_trace=recs_checked,
                  files_with_zero_rounds=zero_rounds, files_with_more_than_3_rounds=many_rounds,
                  rule="runs with a statistics file under GVT periods 0 / small / very large (zero, one, many rounds) and 1..16 threads; the .bin is decoded by the "
                       "extracted decoder (must consume everything and re-encode identically) and by the shipped parser; record counts, GVT monotonicity, cumulative "
